@@ -290,6 +290,10 @@ fn handle_eval_up_to_request(
         }
     };
 
+    // The type checker looks up definitions in the namespace of this
+    // path, so make sure it exists even if the file was never loaded.
+    env.get_or_create_namespace(&path);
+
     let vfs_path = env.vfs.insert(Rc::new(path.clone()), src.to_owned());
     let (items, mut errors) = parse_toplevel_items(&vfs_path, src, &mut env.id_gen);
 
